@@ -169,9 +169,12 @@ def task_spec(draw, encodings=ENCODINGS, minmax=("min", "max"), families=FAMILIE
     return spec
 
 
-def _perturb(draw, v):
+def _perturb(draw, v, reverse_lists=False):
     if isinstance(v, bool):
         return v
+    if isinstance(v, list) and reverse_lists and len(v) >= 2 and draw(st.integers(0, 2)) == 0:
+        # ranges given high-to-low, or with independently drawn end points: accepted by several config models
+        return list(reversed(v)) if draw(st.booleans()) else [_perturb(draw, e) for e in reversed(v)]
     if isinstance(v, int):
         op = draw(st.sampled_from(["-2", "-1", "+1", "+2", "x2"]))
         return max(0, {"-2": v - 2, "-1": v - 1, "+1": v + 1, "+2": v + 2, "x2": v * 2}[op])
@@ -184,7 +187,7 @@ def _perturb(draw, v):
 
 @st.composite
 def config_spec(draw, optimizer, max_cycles=(1, 8), pop_mults=(1, 1, 1.5, 2, 3), perturb=0.3,
-                stopping=True, min_cycles=1):
+                stopping=True, min_cycles=1, reverse_lists=False):
     params = registry.load()[optimizer]["params"]
     ps = params["population_size"]
     mult = draw(st.sampled_from(pop_mults))
@@ -205,7 +208,7 @@ def config_spec(draw, optimizer, max_cycles=(1, 8), pop_mults=(1, 1, 1.5, 2, 3),
             if k in registry.BASE_FIELDS:
                 continue
             if draw(_f(0.0, 1.0)) < perturb:
-                spec[k] = _perturb(draw, params[k])
+                spec[k] = _perturb(draw, params[k], reverse_lists)
     return spec
 
 
